@@ -55,6 +55,8 @@ const (
 	InvNoTarget  = 5 // relation component without target (op.N: 0 new entity, 1 add)
 	InvDeadTgt   = 6 // dead entity as relation target (op.N: 0 new entity, 1 add, 2 set relation)
 	InvRelNotRel = 7 // relation target for a non-relation component
+	InvResAdd    = 8 // add a resource that exists (op.N)
+	InvResRemove = 9 // remove a resource that is absent (op.N)
 )
 
 // Method codes for InvStale.
@@ -174,6 +176,10 @@ func (x *World) runInvalid(op *model.Op, res *model.Result) *Violation {
 		case 2:
 			m.SetRelations(x.H[op.E], rels)
 		}
+	case InvResAdd:
+		x.W.Resources().Add(ecs.ResourceTypeID(x.W, resTypes[op.N]), &res0{V: -1})
+	case InvResRemove:
+		x.W.Resources().Remove(ecs.ResourceTypeID(x.W, resTypes[op.N]))
 	default:
 		harness("unknown invalid kind %d", op.Inv)
 	}
